@@ -181,7 +181,7 @@ def answer (line : String) : String :=
 partial def mainLoop (h : IO.FS.Stream) : IO Unit := do
   let line ← h.getLine
   if line.isEmpty then return ()
-  IO.println (answer (line.dropRightWhile (· == '\n')))
+  IO.println (answer line.trimAscii.toString)
   mainLoop h
 
 def main : IO Unit := do mainLoop (← IO.getStdin)
